@@ -16,7 +16,8 @@ def main():
     meta = json.load(open(os.path.join(d, "meta.json")))
     pid = meta["property"]
     checks = [pid]
-    if "--checks" in sys.argv: checks = sys.argv[sys.argv.index("--checks") + 1].split(",")
+    if "--checks" in sys.argv: checks = [c for c in sys.argv[sys.argv.index("--checks") + 1].split(",") if c]
+    if "--nochecks" in sys.argv: checks = []
     seeds = ["1"]
     if "--seeds" in sys.argv: seeds = sys.argv[sys.argv.index("--seeds") + 1].split(",")
     w = "/var/tmp/seedverify/%s-%s-%d" % (pid, os.path.basename(d), os.getpid())
